@@ -116,5 +116,24 @@ package compact
 //@ func (*PolygonGeometryReferences).FromPathIDs
 //@   requires p != nil && nt != nil
 //@   modifies *p
-//@   loop 1 invariant rangeindex >= -1 && len(p.Paths) == rangeindex + 1
+//@   loop 1 invariant rangeindex >= -1 && rangeindex + 1 <= len(paths) && len(p.Paths) == rangeindex + 1
 //@   ensures len(p.Paths) == len(paths)
+
+// Area.FromFeature gives every area a geometry, whatever mix of polygons it has
+// (Area.Marshal calls a method on it). The helpers are outside the verifier (string
+// table, s2); nothing is assumed about them beyond the range of the encoding.
+//@ func (*Tags).FromFeature
+//@   trusted
+//@ func GeometryEncodingForArea
+//@   trusted
+//@   pure
+//@   ensures result == GeometryEncodingReferences || result == GeometryEncodingLatLngs || result == GeometryEncodingMixed
+//@ func FromS2Polygon
+//@   trusted
+//@ func (*Area).FromFeature
+//@   requires a != nil && f != nil && nt != nil
+//@   loop 1 invariant i >= 0 && polygons != nil
+//@   loop 2 invariant rangeindex >= -1 && polygons != nil
+//@   loop 3 invariant i >= 0 && polygons != nil
+//@   loop 4 invariant i >= 0 && polygons != nil
+//@   ensures a.Polygons != nil
